@@ -39,6 +39,8 @@ class Url:
         self.username: Optional[bytes] = username
         self.password: Optional[bytes] = password
         self.hostname: Optional[bytes] = hostname
+        if port is not None and not 0 <= port <= 65535:
+            raise HttpProtocolException('Invalid port %d in the URL' % port)
         self.port: Optional[int] = port
         self.remainder: Optional[bytes] = remainder
 
